@@ -15,6 +15,7 @@ with sequential results and (thorough tier) by the race detector.
 -/
 import APModel.Model.Interleave
 import APModel.Generated.WriteSets
+import APModel.Generated.GlobalWrites
 
 namespace APModel.Interleave
 variable {α : Type}
@@ -173,5 +174,11 @@ theorem C12_writers_seen :
     ["Object.Clean", "ItemCollection.Append", "Object.UnmarshalJSON", "CopyObjectProperties", "JSONWriteProp", "FlattenObjectProperties"].all
       (fun f => writeSets.any (fun r => r.1 == f && !r.2.2.1.isEmpty)) = true := by
   decide +kernel
+
+/-- The library keeps no state between calls: no function or method stores into a package-level
+variable, or calls a pointer-receiver method on one (a sync.Map, a pool, a lock, a counter) — regenerated
+from the source by a go/types scan over every function body, function literals included.  Independent
+inputs decoded concurrently therefore share nothing the library writes. -/
+theorem C12_no_shared_state : APModel.Generated.globalWrites = [] := by decide
 
 end APModel.C12
